@@ -134,6 +134,11 @@ func ruleBucketAfterWrite(r *Report) {
 		// under bucketLk
 		fi := lockFlow(fn, LockSet{})
 		r.Check(fi.at[p]["index.Index.bucketLk"] == modeW, rule, "(*Index).Flush/buckets.Put-locked", p.Pos(), "under bucketLk", "bucket table updated without holding bucketLk exclusively")
+		// and still under flushLock: the collectors read the current file number under flushLock and
+		// take it to mean that everything in older files is already named by the bucket table
+		_, fl := fi.at[p]["index.Index.flushLock"]
+		r.Check(fl, rule, "(*Index).Flush/buckets.Put-under-flushLock", p.Pos(), "the new positions are published before flushLock is released",
+			"flushLock is released before the new bucket positions are published: index GC, which snapshots the current file number under flushLock, can see file N+1 while the record lists just written to file N are not yet named by any bucket — it marks, truncates or removes them, and the flush then publishes pointers into destroyed data")
 	}
 	// every flushed bucket is published: the blks slice appended in the write loop is the one ranged over
 	r.Min(rule, 2)
@@ -359,7 +364,7 @@ func init() {
 		ruleToGC(r)
 		ruleTailRecovery(r)
 		// "keeps behaving as in C01 afterwards, including through later GC cycles"
-		r.support(grpOrder, []string{"chunk-file-fresh", "remap-offset", "chunk-accounting", "pool-flush-complete", "scan-complete-before-truncate", "primary-mark", "gc-mark-guard", "gc-not-current", "deleted-check", "merge-framing", "span-pair", "rescan-applies-all",
+		r.support(grpOrder, grpFormat, []string{"remap-completion", "chunk-file-fresh", "remap-offset", "chunk-accounting", "pool-flush-complete", "scan-complete-before-truncate", "primary-mark", "gc-mark-guard", "gc-not-current", "deleted-check", "merge-framing", "span-pair", "rescan-applies-all",
 			"firstfile-guard", "free-after-index", "freelist-consume", "gc-flush-first", "scan-from-firstfile", "upgrade-order"})
 	},
 		"Decides only the ordering discipline that crash safety rests on, not crash behaviour: in every store-level flush sequence the primary is flushed before the index and the freelist after it; Index.Flush publishes bucket positions only after the log write succeeded; GC unlinks a data file only after the header recording FirstFile+1 was written successfully and only the header's first file; legacy files are removed only after the new header exists; header files are replaced by write-temp-then-rename, never rewritten in place; the bucket snapshot is installed by rename after flush+close and removed once opened; an unprocessed freelist hand-over file is never overwritten. Not covered (the bulk of C03): torn appends, the Put-vs-commit interleaving, GC crash windows, recovery behaviour.",
